@@ -1,8 +1,13 @@
 (* C11 — Quadkeys are the bit-interleaving of x and y, and the round trip is exact.
    Only statements, `exact` proofs and Print Assumptions live here. Models and proofs: theories/Quadkey.v (bit level),
-   theories/QuadkeyConv.v (list level), theories/DC11.v (run-time checkers). *)
+   theories/QuadkeyConv.v (list level), theories/DC11.v (run-time checkers).
+   ALL theorems are about the executable models (unbounded Z). They transfer to the Go code for quadkey zooms 1..31 — the property's own
+   range — where C11_key_bound keeps every partial sum of the encoder below 4^31 = 2^62 (no int64 wrap); from zoom 32 on Go's sum wraps
+   ("32/0/2147483648" gives -2^63) and nothing is claimed. The tie model <-> code is the differential run (corr), not a theorem. *)
 From Coq Require Import ZArith String List Lia Bool.
-From SID Require Import Base Str Ids ZoomCore AltKeyCore Wire Quadkey QuadkeyConv DC11.
+From Coq Require Floats.
+From SID Require Import Base Str Ids ZoomCore AltKeyCore ChangeZoom BitAlt Wire Quadkey QuadkeyConv DC11.
+From SID Require F64.
 Import ListNotations.
 Open Scope Z_scope.
 
@@ -24,21 +29,21 @@ Theorem C11_key_bound : forall h x y, 0 <= h -> 0 <= x -> 0 <= y -> 0 <= encode 
 Proof. exact encode_bound. Qed.
 Print Assumptions C11_key_bound.
 
-(* decoding the key of a tile returns the tile, for every zoom 1..31 (32 included) and every tile of the grid —
+(* decoding the key of a tile returns the tile, for every zoom 1..31 and every tile of the grid —
    also when x and y have leading zero bits, i.e. when the printed key is shorter than h digits *)
-Theorem C11_decode_encode : forall h x y, 1 <= h <= 32 -> 0 <= x < 2 ^ h -> 0 <= y < 2 ^ h -> decode (encode h x y) h = (x, y).
-Proof. exact decode_encode. Qed.
+Theorem C11_decode_encode : forall h x y, 1 <= h <= 31 -> 0 <= x < 2 ^ h -> 0 <= y < 2 ^ h -> decode (encode h x y) h = (x, y).
+Proof. intros h x y Hh. exact (decode_encode h x y ltac:(lia)). Qed.
 Print Assumptions C11_decode_encode.
 
 (* one-to-one: into ... *)
-Theorem C11_key_injective : forall h x y x' y', 1 <= h <= 32 ->
+Theorem C11_key_injective : forall h x y x' y', 1 <= h <= 31 ->
   0 <= x < 2 ^ h -> 0 <= y < 2 ^ h -> 0 <= x' < 2 ^ h -> 0 <= y' < 2 ^ h -> encode h x y = encode h x' y' -> x = x' /\ y = y'.
-Proof. exact encode_injective. Qed.
+Proof. intros h x y x' y' Hh. exact (encode_injective h x y x' y' ltac:(lia)). Qed.
 Print Assumptions C11_key_injective.
 (* ... and onto: every integer 0 <= q < 4^h is the key of the tile the decoder returns, which lies in the grid *)
-Theorem C11_key_surjective : forall h q, 1 <= h <= 32 -> 0 <= q < 4 ^ h ->
+Theorem C11_key_surjective : forall h q, 1 <= h <= 31 -> 0 <= q < 4 ^ h ->
   let '(x, y) := decode q h in encode h x y = q /\ 0 <= x < 2 ^ h /\ 0 <= y < 2 ^ h.
-Proof. exact encode_decode. Qed.
+Proof. intros h q Hh. exact (encode_decode h q ltac:(lia)). Qed.
 Print Assumptions C11_key_surjective.
 
 (* the string interface of the encoder on a printed "h/x/y" *)
@@ -49,6 +54,28 @@ Print Assumptions C11_encoder_reads_printed_tile.
 
 (* ---- list level. `zrel i oh ov j`: j is at zooms (oh, ov) and on each axis related to i by the zoom change of C03
    (the coarser index is the floor-ancestor of the finer). ---- *)
+
+(* GENERIC, for ANY vertical function `vert` (index form, altitude keys, and the binary-subdivision form of a real height range
+   maxHeight > minHeight, property C17) and ANY input strings, valid or not: whenever the conversion succeeds, every group reports the output
+   zooms and the request's parameters unchanged and is non-empty, no pair occurs twice across the groups, and the reported pairs are exactly
+   the pairs of the input IDs. (The model is parametric in the parameter type, so "unchanged" is true of the model by construction; for the
+   code it is the run-time comparison `par_eqb` of every returned group.) *)
+Theorem C11_groups_generic : forall (P : Type) (oh ov : Z) (par : P) (vert : Z -> Z -> result (list Z)) ids gs,
+  conv oh ov par vert ids = Ok gs ->
+  (forall g, In g gs -> g_hz g = oh /\ g_vz g = ov /\ g_par g = par /\ g_pairs g <> []) /\
+  NoDup (List.concat (map g_pairs gs)) /\
+  (forall p, In p (List.concat (map g_pairs gs)) <-> exists s ps, In s ids /\ id_pairs oh vert s = Ok ps /\ In p ps).
+Proof. exact @conv_groups_generic. Qed.
+Print Assumptions C11_groups_generic.
+(* instance: a real height range, vertical axis = C17's model of convertVerticallIDToBit *)
+Theorem C11_groups_height_range : forall oh ov (mx mn : PrimFloat.float) ids gs,
+  conv oh ov (mx, mn) (fun v f => Ok (vid_to_bit v f ov mx mn)) ids = Ok gs ->
+  (forall g, In g gs -> g_hz g = oh /\ g_vz g = ov /\ g_par g = (mx, mn) /\ g_pairs g <> []) /\
+  NoDup (List.concat (map g_pairs gs)) /\
+  (forall p, In p (List.concat (map g_pairs gs)) <->
+     exists s ps, In s ids /\ id_pairs oh (fun v f => Ok (vid_to_bit v f ov mx mn)) s = Ok ps /\ In p ps).
+Proof. intros oh ov mx mn. exact (conv_groups_generic oh ov (mx, mn) (fun v f => Ok (vid_to_bit v f ov mx mn))). Qed.
+Print Assumptions C11_groups_height_range.
 
 (* ConvertExtendedSpatialIDsToQuadkeysAndVerticalIDs without a height range, on any list of valid IDs (repeats, nested IDs, both signs of f):
    never an error; every group reports the output zooms and the request's parameters unchanged and is non-empty; no pair occurs twice across
@@ -61,6 +88,13 @@ Theorem C11_ids_to_pairs : forall (P : Type) (par : P) es oh ov, qcheck oh ov = 
        exists i j, In i es /\ zrel i oh ov j /\ q = interleave oh (ex j) (ey j) /\ f = ef j).
 Proof. exact @e2q_spec. Qed.
 Print Assumptions C11_ids_to_pairs.
+(* the same, stated against the C03 model: the pairs are (key, index) of ChangeZoom.change_eids es oh ov *)
+Theorem C11_ids_to_pairs_is_C03 : forall (P : Type) (par : P) es oh ov, qcheck oh ov = true -> Forall valid es ->
+  exists gs, e2q par true (map print_eid es) oh ov = Ok gs /\
+    forall q f, In (q, f) (List.concat (map g_pairs gs)) <->
+      exists j, In j (change_eids es oh ov) /\ q = interleave oh (ex j) (ey j) /\ f = ef j.
+Proof. exact @e2q_spec_change. Qed.
+Print Assumptions C11_ids_to_pairs_is_C03.
 
 (* ConvertQuadkeysAndVerticalIDsToExtendedSpatialIDs on valid keys (0 <= key < 4^zoom, zooms 1..31 x 0..35, no height range):
    exactly the zoom-changed IDs of the decoded tiles, no ID twice *)
@@ -77,8 +111,15 @@ Theorem C11_round_trip_is_zoom_change : forall (P : Type) (par : P) es oh ov bh 
     forall s, In s back <-> exists i m j, In i es /\ zrel i oh ov m /\ zrel m bh bv j /\ s = print_eid j.
 Proof. exact @roundtrip_spec. Qed.
 Print Assumptions C11_round_trip_is_zoom_change.
+(* literally: the printed IDs of change_eids (change_eids es oh ov) bh bv *)
+Theorem C11_round_trip_is_C03 : forall (P : Type) (par : P) es oh ov bh bv,
+  qcheck oh ov = true -> echeck bh bv = true -> Forall valid es ->
+  exists gs back, e2q par true (map print_eid es) oh ov = Ok gs /\ q2e (items_of gs) bh bv = Ok back /\ NoDup back /\
+    forall s, In s back <-> exists j, In j (change_eids (change_eids es oh ov) bh bv) /\ s = print_eid j.
+Proof. exact @roundtrip_spec_change. Qed.
+Print Assumptions C11_round_trip_is_C03.
 
-(* same zooms: the round trip returns exactly the original IDs *)
+(* same zooms: the round trip returns exactly the original IDs (as a set: a repeated input comes back once) *)
 Theorem C11_round_trip_exact : forall (P : Type) (par : P) es oh ov, qcheck oh ov = true -> Forall valid es ->
   (forall i, In i es -> eh i = oh /\ ev i = ov) ->
   exists gs back, e2q par true (map print_eid es) oh ov = Ok gs /\ q2e (items_of gs) oh ov = Ok back /\ NoDup back /\
@@ -87,7 +128,8 @@ Proof. exact @roundtrip_same. Qed.
 Print Assumptions C11_round_trip_exact.
 
 (* altitude-key form: same horizontal part, the vertical axis is the key range of ConvertZToMinMaxAltitudekey (C12); zBaseExponent and
-   zBaseOffset are reported unchanged *)
+   zBaseOffset are reported unchanged. Extra hypothesis: every altitude range exists at the output zoom (otherwise the call is refused:
+   C11_altitudekey_request_refused). AltKeyCore.z2key itself refuses zooms outside 0..35 (repair 9dab435). *)
 Theorem C11_ids_to_altitudekey_pairs : forall es oq oa E O, qcheck oq oa = true -> Forall valid es ->
   (forall i, In i es -> is_ok (z2key (ef i) (ev i) oa E O) = true) ->
   exists gs, e2qa (map print_eid es) oq oa E O = Ok gs /\
@@ -106,24 +148,52 @@ Theorem C11_spatial_ids_to_pairs : forall (P : Type) (par : P) b (l : list (Z * 
 Proof. exact @s2q_conjugation. Qed.
 Print Assumptions C11_spatial_ids_to_pairs.
 Theorem C11_pairs_to_spatial_ids : forall items z, Forall qvalid items -> echeck z z = true ->
-  exists l, q2s items z = Ok l /\
+  exists l, q2s items z = Ok l /\ NoDup l /\
     forall s, In s l <-> exists it j, In it items /\ zrel (tile_of it) z z j /\ s = print_sid z (ef j) (ex j) (ey j).
-Proof. exact q2s_spec. Qed.
+Proof. exact q2s_spec_nodup. Qed.
 Print Assumptions C11_pairs_to_spatial_ids.
 
-(* refusals *)
+(* ---- refusals (of the model; the run-time checkers demand an error from the code in exactly these cases) ---- *)
 Theorem C11_bad_output_zoom_refused : forall (P : Type) (par : P) b ids oh ov, qcheck oh ov = false -> e2q par b ids oh ov = Err.
 Proof. exact @e2q_bad_zoom. Qed.
 Print Assumptions C11_bad_output_zoom_refused.
 Theorem C11_malformed_id_refused : forall (P : Type) (par : P) b ids oh ov s, In s ids -> parse_eid s = None -> e2q par b ids oh ov = Err.
 Proof. exact @e2q_malformed. Qed.
 Print Assumptions C11_malformed_id_refused.
+Theorem C11_inverted_heights_refused : forall (P : Type) (par : P) ids oh ov, ids <> [] -> e2q par false ids oh ov = Err.
+Proof. exact @e2q_inverted_heights. Qed.
+Print Assumptions C11_inverted_heights_refused.
+(* everything the checker treats as "must be an error" for the ID -> pair conversions: output zoom, malformed ID, ID zoom outside 0..35, inverted heights *)
+Theorem C11_ids_request_refused : forall (P : Type) (par : P) ids oh ov idx, must_err_e2q ids oh ov idx = true -> e2q par idx ids oh ov = Err.
+Proof. exact @must_err_e2q_sound. Qed.
+Print Assumptions C11_ids_request_refused.
+Theorem C11_malformed_spatial_id_refused : forall (P : Type) (par : P) b sids oh ov s, In s sids -> sid_to_eid_str s = None -> s2q par b sids oh ov = Err.
+Proof. exact @s2q_malformed. Qed.
+Print Assumptions C11_malformed_spatial_id_refused.
+Theorem C11_altitudekey_request_refused : forall ids oq oa E O, must_err_e2qa ids oq oa E O = true -> e2qa ids oq oa E O = Err.
+Proof. exact must_err_e2qa_sound. Qed.
+Print Assumptions C11_altitudekey_request_refused.
+(* pairs -> IDs: output zoom outside 0..35, or an element — at any position — with zooms outside 1..31 x 0..35, a key above the literal
+   limit, or inverted heights *)
+Theorem C11_pairs_request_refused : forall items oh ov, must_err_q2e items oh ov = true -> q2e items oh ov = Err.
+Proof. exact must_err_q2e_sound. Qed.
+Print Assumptions C11_pairs_request_refused.
+Theorem C11_pairs_to_spatial_request_refused : forall items z it, In it items -> item_refused it = true -> q2s items z = Err.
+Proof. exact q2s_refuses. Qed.
+Print Assumptions C11_pairs_to_spatial_request_refused.
 
-(* ---- the run-time checkers applied to the implementation's output decide exactly these statements ---- *)
+(* ---- the run-time checkers. Inside the property's quantifier (valid IDs / keys, zooms in range) and for a well-formed non-error observation
+   each checker accepts exactly when the Prop-level statement holds of the observed output; an error there is rejected; a request the
+   model refuses must be answered with an error. Outside the quantifier but accepted by the library (index outside the grid, key >= 4^zoom,
+   negative key) the element is judged against the model's own answer — no theorem. ---- *)
 Theorem C11_key_checker_sound : forall h x y key, 1 <= h <= 31 -> 0 <= x < 2 ^ h -> 0 <= y < 2 ^ h ->
   check_key h x y key = true <-> key = interleave h x y /\ 0 <= key < 4 ^ h.
 Proof. exact check_key_sound. Qed.
 Print Assumptions C11_key_checker_sound.
+(* for every input of the hook (negative, wider than the zoom, zoom below 1) the model's key passes the checker *)
+Theorem C11_key_checker_accepts_model : forall h x y, check_key h x y (encode h x y) = true.
+Proof. exact check_key_model. Qed.
+Print Assumptions C11_key_checker_accepts_model.
 Theorem C11_tile_checker_sound : forall q z x y, 1 <= z <= 31 -> 0 <= q < 4 ^ z -> check_tile q z x y = true <-> (x, y) = decode q z.
 Proof. exact check_tile_sound. Qed.
 Print Assumptions C11_tile_checker_sound.
@@ -133,24 +203,33 @@ Proof. exact check_rt_sound. Qed.
 Print Assumptions C11_key_round_trip_checker_sound.
 Theorem C11_group_checker_sound : forall ids es oh ov p gs obs, ids_domain ids = Some es -> qcheck oh ov = true ->
   is_err obs = false -> dec_groups obs = Some gs ->
-  check_e2q ids oh ov p obs = true <->
+  check_e2q ids oh ov true p obs = true <->
   (forall g, In g gs -> g_hz g = oh /\ g_vz g = ov /\ par_eqb (g_par g) p = true /\ g_pairs g <> []) /\
   NoDup (List.concat (map g_pairs gs)) /\
   (forall q f, In (q, f) (List.concat (map g_pairs gs)) <->
      exists i j, In i es /\ zrel i oh ov j /\ q = interleave oh (ex j) (ey j) /\ f = ef j).
 Proof. exact check_e2q_sound. Qed.
 Print Assumptions C11_group_checker_sound.
+Theorem C11_group_checker_rejects_error : forall ids es oh ov p obs, ids_domain ids = Some es -> qcheck oh ov = true -> is_err obs = true ->
+  check_e2q ids oh ov true p obs = false.
+Proof. exact check_e2q_rejects_error. Qed.
+Print Assumptions C11_group_checker_rejects_error.
+Theorem C11_group_checker_demands_error : forall ids oh ov idx p obs, must_err_e2q ids oh ov idx = true -> check_e2q ids oh ov idx p obs = is_err obs.
+Proof. exact check_e2q_demands_error. Qed.
+Print Assumptions C11_group_checker_demands_error.
 Theorem C11_id_list_checker_sound : forall items oh ov o obs, Forall qvalid items -> echeck oh ov = true -> is_err obs = false -> as_LS obs = Some o ->
   check_q2e items oh ov obs = true <->
   NoDup o /\ forall s, In s o <-> exists it j, In it items /\ zrel (tile_of it) oh ov j /\ s = print_eid j.
 Proof. exact check_q2e_sound. Qed.
 Print Assumptions C11_id_list_checker_sound.
+Theorem C11_id_list_checker_demands_error : forall items oh ov obs, must_err_q2e items oh ov = true -> check_q2e items oh ov obs = is_err obs.
+Proof. exact check_q2e_demands_error. Qed.
+Print Assumptions C11_id_list_checker_demands_error.
 Theorem C11_dedup_checker_sound : forall inp obs, check_dedup inp obs = true <-> NoDup obs /\ forall s, In s obs <-> In s inp.
 Proof. exact check_dedup_sound. Qed.
 Print Assumptions C11_dedup_checker_sound.
-
-Theorem C11_altitudekey_group_checker_sound : forall ids es oq oa E O exp gs obs, ids_domain ids = Some es -> qcheck oq oa = true ->
-  ref_pairs_alt oq oa E O es = Some exp -> is_err obs = false -> dec_groups obs = Some gs ->
+Theorem C11_altitudekey_group_checker_sound : forall ids es oq oa E O gs obs, ids_domain ids = Some es -> qcheck oq oa = true ->
+  (forall i, In i es -> is_ok (z2key (ef i) (ev i) oa E O) = true) -> is_err obs = false -> dec_groups obs = Some gs ->
   check_e2qa ids oq oa E O obs = true <->
   (forall g, In g gs -> g_hz g = oq /\ g_vz g = oa /\ par_eqb (g_par g) (VZ E, VZ O) = true /\ g_pairs g <> []) /\
   NoDup (List.concat (map g_pairs gs)) /\
@@ -159,6 +238,9 @@ Theorem C11_altitudekey_group_checker_sound : forall ids es oq oa E O exp gs obs
        z2key (ef i) (ev i) oa E O = Ok (mn, mx) /\ mn <= k <= mx).
 Proof. exact check_e2qa_sound. Qed.
 Print Assumptions C11_altitudekey_group_checker_sound.
+Theorem C11_altitudekey_group_checker_demands_error : forall ids oq oa E O obs, must_err_e2qa ids oq oa E O = true -> check_e2qa ids oq oa E O obs = is_err obs.
+Proof. exact check_e2qa_demands_error. Qed.
+Print Assumptions C11_altitudekey_group_checker_demands_error.
 Theorem C11_round_trip_checker_sound : forall ids es oh ov bh bv p og ob gs back, ids_domain ids = Some es ->
   qcheck oh ov = true -> echeck bh bv = true -> is_err og = false -> dec_groups og = Some gs -> as_LS ob = Some back ->
   check_roundtrip ids oh ov bh bv p (VL [og; ob]) = true <->
@@ -191,6 +273,22 @@ Example C11_nonvacuous_lists :
         mkg 6 26 tt [(2912, -2); (2912, -1); (2913, -2); (2913, -1); (2914, -2); (2914, -1); (2915, -2); (2915, -1)]] /\
   q2e [mkq 6 2914 26 51 true] 6 26 = Ok ["6/24/53/26/51"%string].
 Proof. split; [repeat constructor; unfold valid; cbn; lia|]. vm_compute. repeat split; reflexivity. Qed.
+(* the altitude-key hypothesis (every range exists) is satisfiable, and the same-zoom round trip returns a repeated input once *)
+Example C11_nonvacuous_altitudekeys :
+  valid (mk 6 24 53 25 7) /\ qcheck 6 25 = true /\ is_ok (z2key 7 25 25 25 8) = true /\
+  e2qa ["6/24/53/25/7"]%string 6 25 25 8 = Ok [mkg 6 25 (25, 8) [(2914, 15)]].
+Proof. split; [unfold valid; cbn; lia|]. vm_compute. repeat split; reflexivity. Qed.
+Example C11_nonvacuous_round_trip :
+  Forall valid [mk 6 24 53 26 (-51); mk 6 24 53 26 (-51); mk 6 0 63 26 0] /\
+  match e2q tt true ["6/24/53/26/-51"; "6/24/53/26/-51"; "6/0/63/26/0"]%string 6 26 with
+  | Ok gs => q2e (items_of gs) 6 26 = Ok ["6/24/53/26/-51"; "6/0/63/26/0"]%string
+  | Err => False
+  end.
+Proof. split; [repeat constructor; unfold valid; cbn; lia|]. vm_compute. reflexivity. Qed.
+(* the height-range instance of the generic group theorem has a successful call to speak about *)
+Example C11_nonvacuous_height_range :
+  is_ok (conv 6 3 (F64.of_Z 256, F64.of_Z (-256)) (fun v f => Ok (vid_to_bit v f 3 (F64.of_Z 256) (F64.of_Z (-256)))) ["6/24/53/26/51"; "6/24/53/26/51"]%string) = true.
+Proof. vm_compute. reflexivity. Qed.
 
 (* ---- tie to the source by regeneration (DESIGN.md 4.2): transform.quadkeyCheckZoom translated from /repo's current source is the zoom window 1..31 x 0..35 ---- *)
 From SIDGen Require Generated.
